@@ -13,6 +13,7 @@ from kq.analysis import blocks_calling
 from kq.core import Resolver, callee_name, const_val, is_const, is_place, norm_name, proj
 from kq.guardflow import GuardFlow
 from kq.report import RuleResult
+from kq.facts import Broken
 
 OSCODE = "kanata_parser::keys::OsCode"
 KEYCODE = "kanata_keyberon::key_code::KeyCode"
@@ -144,7 +145,9 @@ def rule_gate(prog):
     hi = prog.const("kanata_state_machine::kanata::output_logic::KEY_IGNORE_MAX")
     variants = {v["name"]: v["discr"] for v in prog.adt(OSCODE)["variants"]}
     res.notes.append("ignored range %d..=%d" % (lo, hi))
-    emit = {KBDOUT + m for m in ("press_key", "release_key", "write_key")}
+    # feature simulated_output (workspace build) swaps the output sink type
+    emit = {k + m for m in ("press_key", "release_key", "write_key")
+            for k in (KBDOUT, "kanata_state_machine::oskbd::simulated::KbdOut::")}
     downstream = {
         # callers whose only entry is post_filter_* (checked below from the call graph)
         "kanata_state_machine::kanata::output_logic::zippychord::",
@@ -184,6 +187,10 @@ def rule_gate(prog):
                 res.inst(key, where=where, how="downstream of post_filter_* (zippychord)")
                 res.oblige(True)
                 continue
+            if f.norm.startswith("kanata_state_machine::kanata::output_logic::post_filter_") and kind == "param":
+                res.inst(key, where=where, how="post_filter_* hands its own parameter on; its call sites are gated sinks themselves")
+                res.oblige(True)
+                continue
             if f.norm in table:
                 res.inst(key, where=where, how="table: " + table[f.norm])
                 res.oblige(True)
@@ -203,7 +210,11 @@ def rule_gate(prog):
     if guarded_fns < 3:
         res.viol("gate/census", "src/kanata/output_logic.rs", "expected >=3 range-guarded output sites (write_key, press_key, release_key), found %d" % guarded_fns)
     # zippychord emitters are entered only through post_filter_*
-    for entry in ("zch_press_key", "zch_release_key"):
+    zpfx = "kanata_state_machine::kanata::output_logic::zippychord::"
+    zippy_compiled = any(n.startswith(zpfx) for n in prog.by_norm)
+    if not zippy_compiled and prog.config == "default":
+        raise Broken("zippychord module not found in the default-feature build")
+    for entry in ("zch_press_key", "zch_release_key") if zippy_compiled else ():
         fn = prog.fn("kanata_state_machine::kanata::output_logic::zippychord::ZchState::" + entry)
         callers = {c for c in prog.callers_of(fn.norm) if not c.startswith("kanata_state_machine::kanata::output_logic::zippychord::")}
         res.inst("zippy-entry/" + entry, callers=sorted(callers))
